@@ -10,6 +10,11 @@ pub fn peer_addr(n: u32) -> SocketAddr {
 }
 
 pub fn peer_num(a: &SocketAddr) -> String {
+    if let SocketAddr::V6(v6) = a {
+        if v6.ip().is_unspecified() {
+            return format!("p{}", v6.port());
+        }
+    }
     match a {
         SocketAddr::V4(v4) => {
             let o = v4.ip().octets();
